@@ -33,6 +33,15 @@ def main():
             out['demo_clean'] = sh(['/venv/bin/python', '-B', demo], env=env, cwd=wt, timeout=300)[0]
         rc, o = sh(['git', '-C', wt, 'apply', os.path.join(d, 'patch.diff')])
         if rc != 0:
+            # the patch was written against an earlier HEAD (before a later fix: commit): 3-way merge it
+            rc, o = sh(['git', '-C', wt, 'apply', '--3way', os.path.join(d, 'patch.diff')])
+            if rc == 0:
+                sh(['git', '-C', wt, 'reset', '-q'])
+                rc2, diff = sh(['git', '-C', wt, 'diff'])
+                with open(os.path.join(d, 'patch.rebased.diff'), 'w') as f:
+                    f.write(diff)
+                out['rebased'] = True
+        if rc != 0:
             out['apply'] = o
             print(json.dumps(out))
             return
